@@ -18,6 +18,8 @@
 //   h16 -seed .. -n .. -out ..            corpus witnesses + every leaf of that tree as a
 //                                         monitored case + n sampled out-of-domain cases
 //   h16 -replay FILE ...                  re-run the inputs of a replay file
+//   h16 -statemap FILE                    the O2 <-> FairMQ state tables as the running code applies
+//                                         them (statemap.go; run by translator 'fairmq')
 package main
 
 import (
@@ -704,13 +706,16 @@ func corpus() []runIn {
 		// C16_image_refuted: INIT TASK performed, reply lost: device READY, report ""
 		{Mode: modeFairMQ, Strict: false, Evt: "CONFIGURE", Src: "STANDBY", Dst: "CONFIGURED", NArgs: 1, Dev0: "IDLE",
 			Script: []int{oDone, oDone, oDone, oDone, oTAfter}},
-		// C16_image_notransport_refuted: BIND refused, roll-back accepted, CONNECT sent with stale source
+		// regression case of the repaired finding C16-b (1): BIND refused, roll-back accepted; CONNECT used
+		// to be sent with the stale source BOUND (report ""), now STANDBY is reported after 4 requests
 		{Mode: modeFairMQ, Strict: true, Evt: "CONFIGURE", Src: "STANDBY", Dst: "CONFIGURED", NArgs: 1, Dev0: "IDLE",
 			Script: []int{oDone, oDone, oRefused, oDone, oDone}},
-		// same defect: EXIT from CONFIGURED sends END with source READY after the reset phase
+		// regression case of C16-b (2): EXIT from CONFIGURED used to send END with source READY after the
+		// reset phase (rejected by a source-checking device), now END is requested from IDLE
 		{Mode: modeFairMQ, Strict: true, Evt: "EXIT", Src: "CONFIGURED", Dst: "DONE", NArgs: 1, Dev0: "READY",
 			Script: []int{oDone, oDone, oDone}},
-		// C16_success_all_events_refuted: GO_ERROR is answered with success and the source state
+		// regression case of the repaired finding C16-c: GO_ERROR used to be answered with success and
+		// the source state, now with an error
 		{Mode: modeFairMQ, Strict: false, Evt: "GO_ERROR", Src: "RUNNING", Dst: "ERROR", NArgs: 1, Dev0: "RUNNING", Script: []int{}},
 	}
 }
@@ -718,6 +723,11 @@ func corpus() []runIn {
 // ---------------------------------------------------------------- main
 
 func main() {
+	if len(os.Args) >= 3 && os.Args[1] == "-statemap" {
+		logrus.SetOutput(io.Discard)
+		dumpStateMap(os.Args[2])
+		return
+	}
 	if len(os.Args) >= 3 && os.Args[1] == "-gen" {
 		s := newStack()
 		genTable(s, os.Args[2])
